@@ -512,7 +512,7 @@ def _resolve_map_call(body, local):
             return None
         _, bi, t = d
         p = t["callee"].get("path")
-        if p == "std::iter::Iterator::map" and len(t["args"]) == 2:
+        if p in ("std::iter::Iterator::map", "std::iter::Iterator::filter") and len(t["args"]) == 2:
             return bi, t
         if p in ("std::iter::IntoIterator::into_iter",) and t["args"] and t["args"][0]["k"] in ("copy", "move") and not t["args"][0]["place"]["proj"]:
             local = t["args"][0]["place"]["local"]
@@ -557,6 +557,7 @@ _MATCH_COMBINATORS = {
 def desugar_combinators(raw):
     bodies = {b["id"]: b for b in raw["bodies"]}
     used_closures = set()
+    called_closures = set()
     hosts = set()
     n_done = 0
     for body in raw["bodies"]:
@@ -634,6 +635,34 @@ def desugar_combinators(raw):
                     hosts.add(body["id"])
                     n_done += 1
                     continue
+                out_ty0 = body["locals"][dest["local"]]["ty"]["s"] if not dest["proj"] else ""
+                if (dc is None or dc[1]["callee"].get("path") != "std::iter::Iterator::map") and out_ty0.startswith("std::result::Result<std::vec::Vec<"):
+                    # `results.into_iter().collect::<Result<Vec<_>, E>>()`:
+                    #   for r in results { match r { Ok(v) => acc.push(v), Err(e) => break Err(e) } } Ok(acc)
+                    acc = _new_local(body, "std::vec::Vec<collected>")
+                    el = _new_local(body, "std::result::Result<item, error>")
+                    accref = _new_local(body, "&mut Vec")
+                    push_dest = _new_local(body, "()")
+                    d2 = _new_local(body, "isize")
+                    sk = _loop_skeleton(body, args[0], span)
+                    init = _new_block(body, [], {"k": "call", "callee": _mk_callee("std::vec::Vec::<T>::new", "new"), "args": [], "dest": _pl(acc),
+                                                 "target": sk["pre"], "unwind": None, "fn_span": span, "span": span})
+                    exit_bb = _new_block(body, [_assign(copy.deepcopy(dest), {"k": "aggregate", "kind": {"k": "adt", "adt": "std::result::Result", "variant": "Ok", "idx": 0, "fields": ["0"]}, "ops": [_mv(acc)]}, span)],
+                                         {"k": "goto", "target": cont, "span": span})
+                    okv = _mv(el, [{"k": "downcast", "variant": "Ok", "idx": 0, "adt": "std::result::Result"}, {"k": "field", "i": 0, "name": "0", "ty": "item"}])
+                    errv = _mv(el, [{"k": "downcast", "variant": "Err", "idx": 1, "adt": "std::result::Result"}, {"k": "field", "i": 0, "name": "0", "ty": "error"}])
+                    push_bb = _new_block(body, [_assign(_pl(accref), {"k": "ref", "mut": True, "place": _pl(acc)}, span)],
+                                         {"k": "call", "callee": _mk_callee("std::vec::Vec::<T, A>::push", "push"), "args": [_mv(accref), okv], "dest": _pl(push_dest),
+                                          "target": sk["header"], "unwind": None, "fn_span": span, "span": span})
+                    err_bb = _new_block(body, [_assign(copy.deepcopy(dest), {"k": "aggregate", "kind": {"k": "adt", "adt": "std::result::Result", "variant": "Err", "idx": 1, "fields": ["0"]}, "ops": [errv]}, span)],
+                                        {"k": "goto", "target": cont, "span": span})
+                    test = _new_block(body, [_assign(_pl(el), {"k": "use", "op": sk["elem"]}, span), _assign(_pl(d2), {"k": "discriminant", "place": _pl(el), "adt": "std::result::Result"}, span)],
+                                      {"k": "switch", "discr": _mv(d2), "discr_ty": "isize", "targets": [["0", push_bb], ["1", err_bb]], "otherwise": _unreachable(body, span), "span": span})
+                    sk["wire"](exit_bb, test)
+                    blk["term"] = {"k": "goto", "target": init, "span": span}
+                    hosts.add(body["id"])
+                    n_done += 1
+                    continue
                 if dc is None or dc[1]["callee"].get("path") != "std::iter::Iterator::map" or len(dc[1]["args"]) != 2:
                     continue
                 mt = dc[1]
@@ -677,6 +706,43 @@ def desugar_combinators(raw):
                 mb = body["blocks"][dc[0]]
                 mb["stmts"].append(_assign(copy.deepcopy(mt["dest"]), {"k": "use", "op": copy.deepcopy(mt["args"][0])}, span))
                 mb["term"] = {"k": "goto", "target": mt["target"], "span": span}
+                used_closures.add(cid)
+                hosts.add(body["id"])
+                n_done += 1
+            elif path in ("std::ops::FnMut::call_mut", "std::ops::Fn::call", "std::ops::FnOnce::call_once") and len(args) == 2 \
+                    and (t["callee"].get("self_ty") or {}).get("closure") and args[1]["k"] in ("copy", "move") and not args[1]["place"]["proj"]:
+                # a local closure called directly (`let mut section = |xs| {..}; section(a); section(b)`):
+                # each call is the closure's body with the tuple of arguments spread
+                cid = t["callee"]["self_ty"]["closure"]
+                cb = bodies.get(cid)
+                if cb is None or dest["proj"]:
+                    continue
+                tl = args[1]["place"]["local"]
+                tty = body["locals"][tl]["ty"]["s"]
+                n_args = max(cb["arg_count"] - 1, 0)
+                arg_ops = [_mv(tl, [{"k": "field", "i": j, "name": str(j), "ty": "arg"}]) for j in range(n_args)]
+                res = dest["local"]
+                after = _new_block(body, [], {"k": "goto", "target": cont, "span": span})
+                entry = _inline_closure(body, cb, args[0], arg_ops, res, after, span)
+                blk["term"] = {"k": "goto", "target": entry, "span": span}
+                called_closures.add(cid)
+                hosts.add(body["id"])
+                n_done += 1
+            elif path == "std::iter::Iterator::fold" and len(args) == 3:
+                # acc = init; for x in it { acc = f(acc, x) }
+                cid = _closure_id_of(body, args[2])
+                cb = bodies.get(cid)
+                if cb is None or dest["proj"]:
+                    continue
+                acc = dest["local"]
+                res = _new_local(body, cb["locals"][0]["ty"])
+                sk = _loop_skeleton(body, args[0], span)
+                init = _new_block(body, [_assign(_pl(acc), {"k": "use", "op": copy.deepcopy(args[1])}, span)], {"k": "goto", "target": sk["pre"], "span": span})
+                exit_bb = _new_block(body, [], {"k": "goto", "target": cont, "span": span})
+                back = _new_block(body, [_assign(_pl(acc), {"k": "use", "op": _mv(res)}, span)], {"k": "goto", "target": sk["header"], "span": span})
+                entry = _inline_closure(body, cb, args[2], [_mv(acc), sk["elem"]], res, back, span)
+                sk["wire"](exit_bb, entry)
+                blk["term"] = {"k": "goto", "target": init, "span": span}
                 used_closures.add(cid)
                 hosts.add(body["id"])
                 n_done += 1
@@ -733,10 +799,21 @@ def desugar_combinators(raw):
                 res = _new_local(body, cb["locals"][0]["ty"])
                 none_bb = _new_block(body, [_assign(copy.deepcopy(dest), {"k": "aggregate", "kind": {"k": "adt", "adt": "std::option::Option", "variant": "None", "idx": 0, "fields": []}, "ops": []}, span)],
                                      {"k": "goto", "target": cont, "span": span})
-                some_bb = _new_block(body, [_assign(copy.deepcopy(dest), {"k": "aggregate", "kind": {"k": "adt", "adt": "std::option::Option", "variant": "Some", "idx": 1, "fields": ["0"]}, "ops": [_mv(res)]}, span)],
-                                     {"k": "goto", "target": cont, "span": span})
                 elem = _mv(n0, [{"k": "downcast", "variant": "Some", "idx": 1, "adt": "std::option::Option"}, {"k": "field", "i": 0, "name": "0", "ty": "item"}])
-                entry = _inline_closure(body, cb, mt["args"][1], [elem], res, some_bb, span)
+                if mt["callee"].get("path") == "std::iter::Iterator::filter":
+                    # `it.filter(p)`: take the next element of `it`; if !p(&x) try again, else Some(x)
+                    el = _new_local(body, "item")
+                    elref = _new_local(body, "&item")
+                    some_bb = _new_block(body, [_assign(copy.deepcopy(dest), {"k": "aggregate", "kind": {"k": "adt", "adt": "std::option::Option", "variant": "Some", "idx": 1, "fields": ["0"]}, "ops": [_mv(el)]}, span)],
+                                         {"k": "goto", "target": cont, "span": span})
+                    test = _new_block(body, [], {"k": "switch", "discr": _mv(res), "discr_ty": "bool", "targets": [["0", blk["i"]]], "otherwise": some_bb, "span": span})
+                    centry = _inline_closure(body, cb, mt["args"][1], [_cp(elref)], res, test, span)
+                    entry = _new_block(body, [_assign(_pl(el), {"k": "use", "op": elem}, span), _assign(_pl(elref), {"k": "ref", "mut": False, "place": _pl(el)}, span)],
+                                       {"k": "goto", "target": centry, "span": span})
+                else:
+                    some_bb = _new_block(body, [_assign(copy.deepcopy(dest), {"k": "aggregate", "kind": {"k": "adt", "adt": "std::option::Option", "variant": "Some", "idx": 1, "fields": ["0"]}, "ops": [_mv(res)]}, span)],
+                                         {"k": "goto", "target": cont, "span": span})
+                    entry = _inline_closure(body, cb, mt["args"][1], [elem], res, some_bb, span)
                 sw = _new_block(body, [_assign(_pl(d0), {"k": "discriminant", "place": _pl(n0), "adt": "std::option::Option"}, span)],
                                 {"k": "switch", "discr": _mv(d0), "discr_ty": "isize", "targets": [["0", none_bb], ["1", entry]], "otherwise": _unreachable(body, span), "span": span})
                 t["dest"] = _pl(n0)
@@ -800,6 +877,15 @@ def desugar_combinators(raw):
     for body in raw["bodies"]:
         if body["id"] in hosts:
             thread_known_variants(body, bools=True)
+    for cid in called_closures:
+        left = False
+        for b in raw["bodies"]:
+            for blk2 in b["blocks"]:
+                t2 = blk2["term"]
+                if t2["k"] == "call" and (t2["callee"].get("self_ty") or {}).get("closure") == cid:
+                    left = True
+        if not left:
+            used_closures.add(cid)
     raw["desugared_closures"] = sorted(used_closures)
     # the closures now live inside their hosts: drop the stand-alone bodies (and their promoteds
     # and nested closures stay, they may be referenced from the inlined copy)
